@@ -52,6 +52,15 @@ def gen_pair(rng, i):
     return dict(id="p%d" % i, kind=kind, toks=toks, rules=rules, prods=prods, decls=decls, opts=opts)
 
 
+def fix_pair(p):
+    """keep only tokens the productions use (the lexer must not define others) and declarations
+    about them"""
+    used = set(s for ps in p["prods"].values() for rhs in ps for s in rhs if s in p["toks"])
+    p["toks"] = [t for t in p["toks"] if t in used] or p["toks"][:1]
+    p["decls"] = [dl for dl in p["decls"] if all(("'%s'" % t not in dl) or t in used for t in TOKS)]
+    return p
+
+
 def action_text(pair, pid, rhs):
     """a recording action: production id, $span, every $k (Ok / Err lexeme or child value), the
     text under the span through $lexer, and a literal dollar sign"""
@@ -283,7 +292,8 @@ def gen_crate(d, pairs, inputs):
     build = ["use lrlex::CTLexerBuilder;", "use lrpar::RecoveryKind;", "use cfgrammar::yacc::{YaccKind, YaccOriginalActionKind};",
              "fn main() {", '    let out = std::env::var("OUT_DIR").unwrap();']
     main = [MAIN_RS]
-    body = ["fn main() {", "    cfgrammar::verif::set_recovery_budget_ms(Some(4000));"]
+    body = ["fn main() {", "    cfgrammar::verif::set_recovery_budget_ms(Some(4000));",
+            '    let threaded = std::env::args().nth(1).as_deref() == Some("threads");']
     for p in pairs:
         ytext, ltext = render_pair(p)
         with open(os.path.join(d, "src", p["id"] + ".y"), "w") as f:
@@ -312,6 +322,33 @@ def gen_crate(d, pairs, inputs):
         body.append("    {")
         body.append('        let ytext = include_str!("%s.y"); let ltext = include_str!("%s.l");' % (p["id"], p["id"]))
         body.append("        let lexerdef = %s_l::lexerdef();" % p["id"])
+        # C15: first use of the generated parser from 8 threads released together
+        body.append("        if threaded {")
+        body.append("            let input = %s;" % json.dumps(inputs[p["id"]][0]))
+        body.append("            let barrier = std::sync::Barrier::new(8);")
+        body.append("            let results: Vec<(String, String, String)> = std::thread::scope(|sc| {")
+        body.append("                let hs: Vec<_> = (0..8).map(|_| sc.spawn(|| {")
+        body.append("                    cfgrammar::verif::set_recovery_budget_ms(Some(4000));")
+        body.append("                    let lexer = lexerdef.lexer(input);")
+        body.append("                    let lx = lexemes_str(&lexer);")
+        body.append("                    barrier.wait();")
+        if p["kind"] in ("grmtools", "original_useraction"):
+            body.append("                    let (v, errs) = %s_y::parse(&lexer);" % p["id"])
+            body.append('                    (lx, v.unwrap_or_else(|| "NONE".to_string()), errs_str(&errs))')
+        elif p["kind"] == "original_generic":
+            body.append("                    let (v, errs) = %s_y::parse(&lexer);" % p["id"])
+            body.append('                    (lx, v.map(|n| node_str(&n)).unwrap_or_else(|| "NONE".to_string()), errs_str(&errs))')
+        else:
+            body.append("                    let errs = %s_y::parse(&lexer);" % p["id"])
+            body.append('                    (lx, "NOACTION".to_string(), errs_str(&errs))')
+        body.append("                })).collect();")
+        body.append("                hs.into_iter().map(|h| h.join().unwrap()).collect()")
+        body.append("            });")
+        if not p["opts"]["lex_header"] and p["opts"]["case_insensitive"]:
+            body.append('            let ltext2 = format!("%grmtools{{case_insensitive}}\\n{}", ltext); let ltext = ltext2.as_str();')
+        body.append('            let reference = rt("%s", %s, ytext, ltext, input);' % (p["kind"], "RecoveryKind::CPCTPlus" if p["opts"]["recoverer"] == "cpctplus" else "RecoveryKind::None"))
+        body.append('            for r in results { emit("%s", input, r, reference.clone()); }' % p["id"])
+        body.append("        } else {")
         body.append("        for input in %s {" % json.dumps(inputs[p["id"]]))
         body.append("            let lexer = lexerdef.lexer(input);")
         body.append("            let lx = lexemes_str(&lexer);")
@@ -329,6 +366,7 @@ def gen_crate(d, pairs, inputs):
         if not o["lex_header"] and o["case_insensitive"]:
             body.append('            let ltext2 = format!("%grmtools{{case_insensitive}}\\n{}", ltext); let ltext = ltext2.as_str();')
         body.append('            emit("%s", input, ct, rt("%s", %s, ytext, ltext, input));' % (p["id"], p["kind"], rk))
+        body.append("        }")
         body.append("        }")
         # constants: token_epp, R_*, N_*
         body.append("        let grm = YaccGrammar::<u32>::new(%s, ytext).unwrap();" % yk.replace("YaccKind::", "YaccKind::").replace("YaccOriginalActionKind::", "YaccOriginalActionKind::"))
@@ -357,13 +395,7 @@ def main(pid, tier, replay=None):
     core.build_harness()
     n = 40 if tier == "thorough" else 8
     pairs = [gen_pair(rng, i) for i in range(n)]
-    # grammars whose unused tokens would make the lexer build fail are repaired: every lexer token
-    # must be used by the grammar (missing-from-parser is only a warning, missing-from-lexer an error)
-    for p in pairs:
-        used = set(s for ps in p["prods"].values() for rhs in ps for s in rhs if s in p["toks"])
-        used |= set(t for dline in p["decls"] for t in p["toks"] if "'%s'" % t in dline)
-        p["toks"] = [t for t in p["toks"] if t in used] or p["toks"][:1]
-        p["decls"] = [dl for dl in p["decls"] if all(("'%s'" % t not in dl) or t in p["toks"] for t in TOKS)]
+    pairs = [fix_pair(p) for p in pairs]
     inputs = {p["id"]: gen_inputs(p, rng, 80 if tier == "thorough" else 28) for p in pairs}
     d = os.path.join(res.wd, "ctgen")
     gen_crate(d, pairs, inputs)
